@@ -566,7 +566,7 @@ HANDLER_SETS = [
     ("arch", "FLAGS_NO_ARG"), ("arch", "FLAGS_WITH_ARG"), ("arch", "ARCH_FLAGS"),
     ("caffeinate", "FLAGS_NO_ARG"), ("caffeinate", "FLAGS_WITH_ARG"),
     ("fd", "EXEC_FLAGS"), ("script", "FLAGS_WITH_ARG"), ("script", "FLAGS_NO_ARG"),
-    ("docker", "EXEC_FLAGS_WITH_ARG"), ("shell", "COMMANDS"), ("uv", "RUN_FLAGS_WITH_ARG"), ("uv", "SAFE_COMMANDS"),
+    ("docker", "EXEC_FLAGS_WITH_ARG"), ("shell", "COMMANDS"), ("shell", "_OPTIONS_WITH_VALUE"), ("kubectl", "FLAGS_WITH_ARG"), ("kubectl", "SAFE_ACTIONS"), ("uv", "RUN_FLAGS_WITH_ARG"), ("uv", "SAFE_COMMANDS"),
 ]
 HANDLER_TUPLES = [("tar", "RUNS_PROGRAM_OPTIONS")]
 HANDLER_STRS = [("docker", "EXEC_SHORT_FLAGS_WITH_ARG")]
@@ -619,6 +619,18 @@ def gen_handlers() -> str:
         out.append("/-- `%s` of cli/%s.py -/" % (name, mod))
         out.append("def %s_%s : List (String × String) := [%s]" % (mod, name, ", ".join("(%s, %s)" % (lean_str(a), lean_str(b)) for a, b in pairs)))
         out.append("")
+    # kubectl: the actions that have a subcommand table (keys of the two dicts)
+    km = parse_file("cli/kubectl.py")
+    keys = []
+    for name in ("SAFE_SUBCOMMANDS", "UNSAFE_SUBCOMMANDS"):
+        v = module_assign(km, name)
+        if isinstance(v, ast.Dict) and all(isinstance(k, ast.Constant) and isinstance(k.value, str) for k in v.keys):
+            keys += [k.value for k in v.keys]
+        else:
+            MISSING.append("cli/kubectl.py:" + name)
+    out.append("/-- keys of `SAFE_SUBCOMMANDS` and `UNSAFE_SUBCOMMANDS` of cli/kubectl.py, sorted -/")
+    out.append("def kubectl_SUBCOMMAND_ACTIONS : List String := %s" % lean_list(sorted(set(keys))))
+    out.append("")
     # core/bash.py: the unquoted-safe characters, the quote replacement, the assignment shape
     b = parse_file("core/bash.py")
     an = parse_file("core/analyzer.py")
@@ -931,9 +943,18 @@ def gen_sql() -> str:
                 if xs is not None:
                     tuples.append((n.lineno, xs))
     tuples = [xs for _, xs in sorted(tuples)]
-    if len(tuples) != 3:
+    one_arg = module_assign(h, "_FLAGS_WITH_ARG")
+    one_arg = const_strs(one_arg) if one_arg is not None else None
+    two_arg = module_assign(h, "_FLAGS_WITH_TWO_ARGS")
+    two_arg = const_strs(two_arg) if two_arg is not None else None
+    if two_arg is None:
+        MISSING.append("sqlite3 _FLAGS_WITH_TWO_ARGS")
+        two_arg = []
+    if len(tuples) != 2 or one_arg is None:
         MISSING.append("sqlite3 option tuples")
         tuples = [[], [], []]
+    else:
+        tuples.append(one_arg)
     # characters outside ASCII whose upper() is pure ASCII and that `\w` accepts (they can spell a keyword)
     ups = []
     for cp in range(128, 0x110000):
@@ -958,6 +979,7 @@ def gen_sql() -> str:
         "def sqliteHelp : List String := " + lean_list(tuples[0]),
         "def sqliteNoArg : List String := " + lean_list(tuples[1]),
         "def sqliteOneArg : List String := " + lean_list(tuples[2]),
+        "def sqliteTwoArg : List String := " + lean_list(two_arg),
         "/-- non-ASCII word characters whose `.upper()` is ASCII (code point, upper-cased text) -/",
         "def upperToAscii : List (Nat × String) := [" + ", ".join("(%d, %s)" % (cp, lean_str(u)) for cp, u in ups) + "]",
         "",
@@ -992,12 +1014,23 @@ def gen_pycli() -> str:
                 limit = n.comparators[0].value
     if not suffixes or not limit:
         MISSING.append("analyze_python_file gates")
+    # _find_script_path: script words it refuses to resolve (`if token.startswith("~"): return None, -1`)
+    refused = []
+    f = find_func(m, "_find_script_path")
+    if f is not None:
+        for n in ast.walk(f):
+            if (isinstance(n, ast.If) and isinstance(n.test, ast.Call) and ast.unparse(n.test.func) == "token.startswith" and len(n.test.args) == 1
+                    and isinstance(n.test.args[0], ast.Constant) and isinstance(n.test.args[0].value, str) and not n.test.args[0].value.startswith("-")
+                    and len(n.body) == 1 and isinstance(n.body[0], ast.Return) and ast.unparse(n.body[0].value) == "(None, -1)" and not n.orelse):
+                refused.append(n.test.args[0].value)
     txt = [
         "-- GENERATED by harness/gen_tables.py from src/dippy/cli/python.py. Do not edit.",
         "namespace Dippy.Generated.PyCli",
         "",
         "def flagsWithArg : List String := " + lean_list(fwa),
         "def safeFlags : List String := " + lean_list(safe),
+        "/-- leading text of a script word that `_find_script_path` does not resolve (the shell would expand it) -/",
+        "def scriptRefusedPrefixes : List String := " + lean_list(refused),
         "def scriptSuffixes : List String := " + lean_list(suffixes),
         "def sizeLimit : Nat := %d" % limit,
         "def safeModules : List String := " + lean_list(sizes["SAFE_MODULES"]),
